@@ -1117,6 +1117,9 @@ def run(ctx):
                       % ((len(hdis),) + hdis[0]))
 
     ctx.log('histories done')
+    if tie:
+        ctx.notes.append('tie: ' + tie[:600])
+        ctx.log('tie broken: ' + ' '.join(tie.split())[:300])
     if tie and not found:
         ctx.violation('tie-broken', tie[:300], dict(kind='tie', detail=tie, theorem='props/C18.v / correspondence'), nofail=True)
     if not ctx.quick:
